@@ -1,11 +1,271 @@
 /-
-Driver of word `at` (attribute export / import model, stream attr).  Filled in by the
-attribute model work.
+Driver of word `at` (attribute export / import model `Acme.Attr`, stream `attr`).
+
+  at export <model-json>  → ok <dbc-attrs>  |  err <cause>     (the attributes and assignments are
+                                  first passed through the modelled constructors / AssignAttribute)
+  at import <dbc-json>    → ok <model-attrs>  |  err <cause>
+
+JSON (no blank anywhere; names and strings are blank-free ASCII; a float is the exact rational
+"num/den" of the binary64 number):
+  model-json = {"bus":[asg…],"ents":[ent…]}
+  ent  = {"k":"n","n":name,"a":[asg…]}
+       | {"k":"m","id":N,"c":cycle,"d":delay,"sd":startDelay,"st":0..4,"a":[asg…]}
+       | {"k":"s","id":N,"n":name,"sv":"num/den","st":0..7,"a":[asg…]}
+  asg  = {"d":def,"v":val}
+  def  = {"n":name,"t":"s","s":str} | {"n":name,"t":"i","d":Z,"min":Z,"max":Z,"hex":0|1}
+       | {"n":name,"t":"f","fd":q,"fmin":q,"fmax":q} | {"n":name,"t":"e","vals":[str…]}
+  (the harness writes every key of every variant; only the keys of the variant are read)
+  val  = {"t":"s","s":str} | {"t":"i","i":Z} | {"t":"f","f":q}
+
+  dbc-json = {"keys":[key…],"defs":[ddef…],"dflt":[{"n":name,"v":dval}…],"vals":[{"n":name,"o":obj,"v":dval}…]}
+  key  = {"k":"n","n":name} | {"k":"m","id":N} | {"k":"s","id":N,"n":name}
+  ddef = {"k":0..4,"n":name,"t":"int","min":Z,"max":Z} | {…"t":"hex","hmin":N,"hmax":N}
+       | {…"t":"float","fmin":q,"fmax":q} | {…"t":"string"} | {…"t":"enum","vals":[str…]}
+  dval = {"t":"i","i":Z} | {"t":"h","h":N} | {"t":"f","f":q} | {"t":"s","s":str}
+  obj  = {"k":"g"} | {"k":"n","n":name} | {"k":"m","id":N} | {"k":"s","id":N,"n":name} | {"k":"e","n":name}
+
+Renderings (the same text is produced by harness/s_attr.go from the real objects):
+  dbc-attrs   : defs=[G|N|M|S|E:name:INT(min,max)|HEX(min,max)|FLOAT(q,q)|STRING|ENUM("a","b"),…]
+                dflt=[name=dval,…] vals=[obj:name=dval,…]     dval = i:Z | h:N | f:q | s:"str"
+                obj = G | N(name) | M(id) | S(id,name) | E(name)
+  model-attrs : bus=[asg,…] ents=[N(name)[asg,…];M(id){c=…,d=…,sd=…,st=…}[asg,…];S(id,name){sv=q,st=…}[asg,…]]
+                asg = name:def=val   def = str("d") | int(d,min,max) | hex(d,min,max) | float(d,min,max) | enum("a","b";"d")
+                val = s:"str" | i:Z | f:q
 -/
+import Lean.Data.Json
 import Acme.Driver.Util
+import Acme.Core.Attr
 
 namespace Acme.Driver.AttrD
+open Lean (Json)
+open Acme.Attr Acme.Conv
 
-def handle (_args : List String) : String := "bad-op"
+abbrev D := Except String
+
+def fld (j : Json) (k : String) : D Json := j.getObjVal? k
+def fStr (j : Json) (k : String) : D String := do (← fld j k).getStr?
+def fNat (j : Json) (k : String) : D Nat := do (← fld j k).getNat?
+def fInt (j : Json) (k : String) : D Int := do (← fld j k).getInt?
+
+def fList {α : Type} (f : Json → D α) (j : Json) (k : String) : D (List α) := do
+  let v ← fld j k
+  if v.isNull then return []
+  let a ← v.getArr?
+  a.toList.mapM f
+
+def parseRat (s : String) : D Rat :=
+  match s.splitOn "/" with
+  | [n, d] =>
+    match n.toInt?, d.toNat? with
+    | some n, some d => if d = 0 then throw "rat" else pure (mkRat n d)
+    | _, _ => throw "rat"
+  | _ => throw "rat"
+
+def fRat (j : Json) (k : String) : D Rat := do parseRat (← fStr j k)
+
+def msgSendOf : Nat → MsgSend
+  | 1 => .cyclic | 2 => .cyclicIfActive | 3 => .cyclicAndTriggered
+  | 4 => .cyclicIfActiveAndTriggered | _ => .unset
+
+def sigSendOf : Nat → SigSend
+  | 1 => .cyclic | 2 => .onWrite | 3 => .onWriteRep | 4 => .onChange | 5 => .onChangeRep
+  | 6 => .ifActive | 7 => .ifActiveRep | _ => .unset
+
+/-! ## model side input: through the constructors of the public API -/
+
+/-- the attribute as the constructor makes it (or its refusal) -/
+def jDef (j : Json) : D (Except ImpErr AttrDef) := do
+  let n ← fStr j "n"
+  match ← fStr j "t" with
+  | "s" => pure (.ok ⟨n, .str (← fStr j "s")⟩)
+  | "i" =>
+    let hex := (← fNat j "hex") != 0
+    pure (newInt n (← fInt j "d") (← fInt j "min") (← fInt j "max") hex)
+  | "f" => pure (newFloat n (← fRat j "fd") (← fRat j "fmin") (← fRat j "fmax"))
+  | "e" => pure (newEnum n (← fList (·.getStr?) j "vals"))
+  | _ => throw "def"
+
+def jVal (j : Json) : D Val := do
+  match ← fStr j "t" with
+  | "s" => pure (.str (← fStr j "s"))
+  | "i" => pure (.int (← fInt j "i"))
+  | "f" => pure (.float (← fRat j "f"))
+  | _ => throw "val"
+
+/-- `AssignAttribute(att, value)` -/
+def jAsg (j : Json) : D (Except ImpErr Asg) := do
+  let d ← jDef (← fld j "d")
+  let v ← jVal (← fld j "v")
+  match d with
+  | .error e => pure (.error e)
+  | .ok d =>
+    match checkAssign d.ty v with
+    | .error e => pure (.error e)
+    | .ok () => pure (.ok ⟨d, v⟩)
+
+def seqE {α : Type} (l : List (Except ImpErr α)) : Except ImpErr (List α) := mapE id l
+
+def jEnt (j : Json) : D (Except ImpErr Ent) := do
+  let asgs := seqE (← fList jAsg j "a")
+  match ← fStr j "k" with
+  | "n" =>
+    let n ← fStr j "n"
+    pure (asgs.map (Ent.node n ·))
+  | "m" =>
+    let id ← fNat j "id"
+    let f : MsgF := { cycle := ← fInt j "c", delay := ← fInt j "d", startDelay := ← fInt j "sd",
+                      send := msgSendOf (← fNat j "st") }
+    pure (asgs.map (Ent.msg id f ·))
+  | "s" =>
+    let id ← fNat j "id"
+    let n ← fStr j "n"
+    let f : SigF := { start := ← fRat j "sv", send := sigSendOf (← fNat j "st") }
+    pure (asgs.map (Ent.sig id n f ·))
+  | _ => throw "ent"
+
+def jModel (j : Json) : D (Except ImpErr ModelAttrs) := do
+  let bus := seqE (← fList jAsg j "bus")
+  let ents := seqE (← fList jEnt j "ents")
+  match bus, ents with
+  | .error e, _ => pure (.error e)
+  | _, .error e => pure (.error e)
+  | .ok b, .ok es => pure (.ok ⟨b, es⟩)
+
+/-! ## file side input -/
+
+def jKey (j : Json) : D Key := do
+  match ← fStr j "k" with
+  | "n" => pure (.node (← fStr j "n"))
+  | "m" => pure (.msg (← fNat j "id"))
+  | "s" => pure (.sig (← fNat j "id") (← fStr j "n"))
+  | _ => throw "key"
+
+def kindOf : Nat → Kind
+  | 0 => .general | 1 => .node | 2 => .message | 3 => .signal | _ => .envVar
+
+def jDDef (j : Json) : D DAttr := do
+  let k := kindOf (← fNat j "k")
+  let n ← fStr j "n"
+  match ← fStr j "t" with
+  | "int" => pure ⟨k, n, .int (← fInt j "min") (← fInt j "max")⟩
+  | "hex" => pure ⟨k, n, .hex (← fNat j "hmin") (← fNat j "hmax")⟩
+  | "float" => pure ⟨k, n, .float (← fRat j "fmin") (← fRat j "fmax")⟩
+  | "string" => pure ⟨k, n, .string⟩
+  | "enum" => pure ⟨k, n, .enum (← fList (·.getStr?) j "vals")⟩
+  | _ => throw "ddef"
+
+def jDVal (j : Json) : D DVal := do
+  match ← fStr j "t" with
+  | "i" => pure (.int (← fInt j "i"))
+  | "h" => pure (.hex (← fNat j "h"))
+  | "f" => pure (.float (← fRat j "f"))
+  | "s" => pure (.str (← fStr j "s"))
+  | _ => throw "dval"
+
+def jTarget (j : Json) : D Target := do
+  match ← fStr j "k" with
+  | "g" => pure .general
+  | "n" => pure (.node (← fStr j "n"))
+  | "m" => pure (.msg (← fNat j "id"))
+  | "s" => pure (.sig (← fNat j "id") (← fStr j "n"))
+  | "e" => pure (.envVar (← fStr j "n"))
+  | _ => throw "obj"
+
+def jDDefault (j : Json) : D DDefault := do
+  pure ⟨← fStr j "n", ← jDVal (← fld j "v")⟩
+
+def jDValue (j : Json) : D DValue := do
+  pure ⟨← fStr j "n", ← jTarget (← fld j "o"), ← jDVal (← fld j "v")⟩
+
+def jDbc (j : Json) : D DbcAttrs := do
+  pure { keys := ← fList jKey j "keys", defs := ← fList jDDef j "defs",
+         defaults := ← fList jDDefault j "dflt", values := ← fList jDValue j "vals" }
+
+/-! ## renderings -/
+
+def q (s : String) : String := "\"" ++ s ++ "\""
+
+def showStrs (l : List String) : String := ",".intercalate (l.map q)
+
+def showKind : Kind → String
+  | .general => "G" | .node => "N" | .message => "M" | .signal => "S" | .envVar => "E"
+
+def showDType : DType → String
+  | .int mn mx => s!"INT({mn},{mx})"
+  | .hex mn mx => s!"HEX({mn},{mx})"
+  | .float mn mx => s!"FLOAT({showRat mn},{showRat mx})"
+  | .string => "STRING"
+  | .enum vs => s!"ENUM({showStrs vs})"
+
+def showDVal : DVal → String
+  | .int i => s!"i:{i}"
+  | .hex h => s!"h:{h}"
+  | .float x => s!"f:{showRat x}"
+  | .str s => s!"s:{q s}"
+
+def showTarget : Target → String
+  | .general => "G"
+  | .node n => s!"N({n})"
+  | .msg id => s!"M({id})"
+  | .sig id n => s!"S({id},{n})"
+  | .envVar n => s!"E({n})"
+
+def showDbc (d : DbcAttrs) : String :=
+  let defs := d.defs.map (fun a => s!"{showKind a.kind}:{a.name}:{showDType a.ty}")
+  let dflt := d.defaults.map (fun a => s!"{a.name}={showDVal a.val}")
+  let vals := d.values.map (fun a => s!"{showTarget a.target}:{a.name}={showDVal a.val}")
+  s!"defs={showList defs} dflt={showList dflt} vals={showList vals}"
+
+def showType : AttrType → String
+  | .str d => s!"str({q d})"
+  | .int d mn mx false => s!"int({d},{mn},{mx})"
+  | .int d mn mx true => s!"hex({d},{mn},{mx})"
+  | .float d mn mx => s!"float({showRat d},{showRat mn},{showRat mx})"
+  | .enum vs d => s!"enum({showStrs vs};{q d})"
+
+def showVal : Val → String
+  | .str s => s!"s:{q s}"
+  | .int i => s!"i:{i}"
+  | .float x => s!"f:{showRat x}"
+
+def showAsg (a : Asg) : String := s!"{a.att.name}:{showType a.att.ty}={showVal a.val}"
+
+def showAsgs (l : List Asg) : String := showList (l.map showAsg)
+
+def showEnt : Ent → String
+  | .node n a => s!"N({n}){showAsgs a}"
+  | .msg id f a =>
+    s!"M({id})\{c={f.cycle},d={f.delay},sd={f.startDelay},st={msgSendToDBC f.send}}{showAsgs a}"
+  | .sig id n f a => s!"S({id},{n})\{sv={showRat f.start},st={sigSendToDBC f.send}}{showAsgs a}"
+
+def showModel (m : ModelAttrs) : String :=
+  s!"bus={showAsgs m.bus} ents=[{";".intercalate (m.ents.map showEnt)}]"
+
+def showErr : ImpErr → String
+  | .defaultRequired => "defaultRequired" | .invalidType => "invalidType"
+  | .minGreaterThanMax => "minGreaterThanMax" | .defGreaterThanMax => "defGreaterThanMax"
+  | .defLowerThanMin => "defLowerThanMin" | .valuesNil => "valuesNil"
+  | .indexNegative => "indexNegative" | .indexOutOfBounds => "indexOutOfBounds"
+  | .outOfBounds => "outOfBounds" | .notFound => "notFound"
+
+def handleExport (payload : String) : String :=
+  match Json.parse payload >>= jModel with
+  | .error e => "bad-op " ++ e
+  | .ok (.error e) => "err " ++ showErr e
+  | .ok (.ok A) => "ok " ++ showDbc (exportAttrs A)
+
+def handleImport (payload : String) : String :=
+  match Json.parse payload >>= jDbc with
+  | .error e => "bad-op " ++ e
+  | .ok d =>
+    match importAttrs d with
+    | .ok m => "ok " ++ showModel m
+    | .error e => "err " ++ showErr e
+
+def handle (args : List String) : String :=
+  match args with
+  | "export" :: payload :: _ => handleExport payload
+  | "import" :: payload :: _ => handleImport payload
+  | _ => "bad-op"
 
 end Acme.Driver.AttrD
